@@ -219,16 +219,51 @@ def judge(impl_line, model_line):
     return viol, other
 
 
+def shrink(ctx, text, viol, li, lm):
+    """greedy one-character deletion while the first failing clause keeps failing (both programs are
+    re-run on the candidates); returns (text, impl line, model line) of the smallest string found"""
+    exe, drv = getattr(ctx, "c08_bins", (None, None))
+    if not exe or len(text) > 600:
+        return text, li, lm
+    clause = viol[0]
+    for _ in range(700):
+        cands = list(dict.fromkeys(text[:i] + text[i + 1:] for i in range(len(text))))
+        if not cands:
+            break
+        lines = ["s " + hx(c.encode("utf-8")) for c in cands]
+        (rc_i, out_i, _), = run_tasks(exe, [lines])
+        (rc_m, out_m, _), = run_tasks(drv, [lines])
+        if rc_i != 0 or rc_m != 0 or len(out_i) != len(cands) or len(out_m) != len(cands):
+            break
+        for c, a, b in zip(cands, out_i, out_m):
+            if a != b and clause in judge(a, b)[0]:
+                text, li, lm = c, a, b
+                break
+        else:
+            break
+    return text, li, lm
+
+
 def report(ctx, li, lm):
     ctx.disagreements_checked += 1
     viol, other = judge(li, lm)
     h = li.split(" ", 1)[0]
     try:
-        text = bytes.fromhex(h).decode("utf-8", "replace") if h != "-" else ""
+        text = bytes.fromhex(h).decode("utf-8") if h != "-" else ""
     except ValueError:
-        text = "?"
+        text = None
     if viol:
-        ctx.violation("; ".join(viol), {"input_hex": h, "input": text, "impl": li, "spec_model": lm})
+        data = {"input_hex": h, "input": text, "impl": li, "spec_model": lm}
+        if text is not None and getattr(ctx, "nviol", 0) < 5:
+            try:
+                small, sli, slm = shrink(ctx, text, viol, li, lm)
+                if small != text:
+                    data = {"input_hex": hx(small.encode("utf-8")), "input": small, "impl": sli, "spec_model": slm,
+                            "shrunk_from": text, "shrunk_from_hex": h}
+                    viol = judge(sli, slm)[0] or viol
+            except Exception:
+                pass
+        ctx.violation("; ".join(viol), data)
     elif other:
         ctx.tie_broken("correspondence: " + "; ".join(other), "input %r\nimpl:  %s\nmodel: %s" % (text, li, lm))
     else:
@@ -305,6 +340,7 @@ def run(ctx):
     exe = vlib.harness_build(["c08"])["c08"]
     vlib.coq_make(["Names/Wire.vo", "Names/Examples.vo"])
     drv = vlib.ocaml_build("c08")
+    ctx.c08_bins = (exe, drv)
     fns = libdbus()
     lstats = {"compared": 0, "expected_unique_name_laxness": 0, "unexpected": 0, "unexpected_samples": []}
 
